@@ -10,7 +10,7 @@
 import z3
 
 SCALARS = ('int', 'real', 'bool', 'str', 'none', 'any', 'fn')
-CONTAINERS = ('list', 'set', 'dict', 'deque')
+CONTAINERS = ('list', 'set', 'dict', 'deque', 'ddict')   # ddict: collections.defaultdict (missing keys read as the default and are inserted)
 
 
 class Ty(object):
